@@ -379,6 +379,12 @@ func leastConnsBalance(backs BackendList) (BackendList, error) {
 		}
 	}
 
+	// backends may change between the two rounds (e.g. turn unavailable),
+	// best is the candidate selected in the first round
+	if len(candidates) == 0 {
+		candidates = append(candidates, best)
+	}
+
 	return candidates, nil
 }
 
